@@ -275,6 +275,29 @@ var mutators = []cand{
 		}
 		return false
 	}},
+	{"locked-amount-released-to-the-actor", func(r *rand.Rand, c *ctx, s *channel.State, a *channel.Index) bool {
+		// sums preserved: part of a locked amount goes to the actor. Fine without an app; the payment
+		// app forbids the actor's balance to grow - also when that balance is zero
+		for pass := 0; pass < 2; pass++ {
+			for k := range s.Locked {
+				for i := range s.Locked[k].Bals {
+					if pass == 0 && (i >= len(c.cur.Balances) || int(*a) >= len(c.cur.Balances[i]) || c.cur.Balances[i][*a].Sign() != 0) {
+						continue // first choice: a row in which the actor owns nothing
+					}
+					if s.Locked[k].Bals[i].Sign() > 0 && i < len(s.Balances) && int(*a) < len(s.Balances[i]) {
+						// undo what the valid successor did in this row, then move one unit
+						for j := range s.Balances[i] {
+							s.Balances[i][j] = new(big.Int).Set(c.cur.Balances[i][j])
+						}
+						s.Locked[k].Bals[i] = new(big.Int).Sub(s.Locked[k].Bals[i], one())
+						s.Balances[i][*a] = new(big.Int).Add(s.Balances[i][*a], one())
+						return true
+					}
+				}
+			}
+		}
+		return false
+	}},
 	{"locked-moved-sums-preserved", func(r *rand.Rand, c *ctx, s *channel.State, _ *channel.Index) bool {
 		if len(s.Locked) < 2 {
 			return false
